@@ -31,7 +31,7 @@ THEOREMS = [
     "C01_width_negative", "C01_emit_value", "C01_pack_decode", "C01_pack_length", "C01_emit", "C01_emit_accepts",
     "C01_emit_reject", "C01_emit_noperand", "C01_length", "C01_length_agree", "C01_get_emitter", "C01_get_emitter_ok",
     "C01_accepted_is_isa", "C01_undefined_rejected", "C01_isa_matrix_wf", "C01_oracle_accept_sound",
-    "C01_oracle_reject_sound", "C01_shape_key",
+    "C01_oracle_reject_sound", "C01_shape_key", "C01_shape",
 ]
 RULE = ("every mnemonic of the live table x 19 operand shapes (implied, #v, v, v,x v,y v,s (v) (v),y [v] [v],y (v,x) "
         "(v,s),y and 7 malformed index combinations) x suffix {none,.b,.w,.l} x operand {0,0xFF,0x100,0xFFFF,0x10000,"
@@ -42,8 +42,9 @@ PROVED_NOTE = ("proved for all Z / all tables: the width rule (hex digit count <
                "truncation, emitter_emit = opcode :: LE operand and its exact rejection condition, length agreement, "
                "get_emitter rejections; for any table with table_ok = true every accepted OpcodeNode emission equals the "
                "encoding computed from the independent 256-opcode matrix; per run: table_ok / supported_ok of the "
-               "regenerated live table by vm_compute. Correspondence-only: operand syntax -> (mode, index, size) "
-               "(scanner/parser; C01_shape needs the M7 model) and that cpu_65c816.py/nodes.py compute what Model/Opcode.v computes.")
+               "regenerated live table by vm_compute. operand syntax -> (mode, index, size, operand) proved on the parser model for the ten statement "
+               "shapes (C01_shape) with the malformed index combinations rejected. Correspondence-only: that the scanner "
+               "produces those token shapes from text (SCAN tie) and that cpu_65c816.py/nodes.py compute what Model/Opcode.v computes.")
 EXHAUSTIVE = {"quick": False, "thorough": True}
 SHARD = 250
 MANIFEST = {
